@@ -67,7 +67,22 @@ def run(tier):
                 body += ("\n\t\t" if ti in combo else (" " if ti else "")) + t
             src = "struct S\n{\n\tv: i32,\n\tw: i32,\n}\nfn f(x: i32) -> i32\n{\n\treturn: x\n}\nfn main()\n{\n\tvar a: i32 = 1;\n\t%s\n}\n" % body
             multi.append(("p%d.%d" % (pi, ci), "multi-line-construct", src))
-    allc = cases + known + multi
+    # faults whose offending line is known: the primary location must be on the line marked HERE
+    # (helper declarations and other uses of the same names sit on other lines, in other files)
+    PRE = "fn helper(x: i32) -> i32\n{\n\treturn: x\n}\nconst K: i32 = 5;\nstruct S\n{\n\tm: i32,\n}\nfn view(a: []i32) -> i32\n{\n\treturn: a[0]\n}\nfn ptr(p: &i32)\n{\n\tp = 1;\n}\n"
+    offenders = [("511", "var r: i32 = helper(1, 2);"), ("510", "var r: i32 = helper();"), ("512", "var r: i32 = helper(true);"), ("513", "var v: i32 = 1; ptr(v);"),
+                 ("402", "var r: i32 = nowhere;"), ("401", "var r: i32 = nofn(1);"), ("530", "K = 2;"), ("504", "var r: i32 = 0; r = true;"),
+                 ("551", "var r: i32 = 1; var q: i64 = 2; var t: i32 = r + q;"), ("550", "var r: bool = true; var t: bool = r + r;"), ("552", "var r: bool = true; var t: char8 = r as char8;"),
+                 ("531", "var a: [2]i32 = [1, 2]; var b: [2]i32 = [3, 4]; b = a;"), ("400", "goto nolabel;"), ("422", "var r: i32 = 1; var r: i32 = 2;"),
+                 ("405", "var r: Nope = Nope { };"), ("406", "var r = S { zz: 1 };"), ("581", "var r = [];"), ("501", "var r: i32 = 1; var t: i32 = r[0];")]
+    marked = []
+    for oi, (code, stmt) in enumerate(offenders):
+        for pad in (0, 3):
+            parts = stmt.split("; ")
+            body = "".join("\t%s%s\n" % (p, "" if p.endswith(";") else ";") for p in parts[:-1]) + "\n" * pad + "\t" + parts[-1] + " // HERE\n"
+            src = "// é€ comment\n" * (pad // 3) + PRE + "fn main()\n{\n" + body + "}\n"
+            marked.append(("o%d.%d" % (oi, pad), "known-offender:" + code, src))
+    allc = cases + known + multi + marked
     impl = C.run_harness("diag", [(c[0], c[2]) for c in allc], ck.work + "/diag", timeout=1800)
     stats = collections.Counter(); codes_seen = collections.Counter(); bad = 0
     for cid, kind, src in allc:
@@ -79,6 +94,15 @@ def run(tier):
             continue
         files = dict(GM_split(src))
         diags = f[1].split(" ") if len(f) > 1 and f[1] else []
+        if kind.startswith("known-offender:"):
+            want = kind.split(":")[1]
+            here = 1 + src[:src.index("// HERE")].count("\n")
+            mine = [d for d in diags if d.startswith(want + "@")]
+            if not mine:
+                stats["offender-code-other"] += 1      # the construct is reported with another code: not a location matter
+            elif not any(int(re.match(r"\d+@.*:(\d+)-(\d+):(\d+):", d.split("#")[0]).group(3)) == here for d in mine):
+                bad += 1
+                ck.violation("primary-location-elsewhere:E" + want, "E%s is reported at %s, the offending construct is on line %d" % (want, [d.split("#")[0] for d in mine], here), "source:\n%s" % src)
         for d in diags:
             codes_seen[d.split("@")[0]] += 1
             why = check_location(files, d)
@@ -99,6 +123,12 @@ def run(tier):
     ck.log("diag: %d inputs, verdicts %s, %d location problems, %d distinct codes" % (len(allc), dict(stats), bad, len(codes_seen)))
     # determinism: the same inputs in three fresh processes
     det = [(c[0], c[2]) for c in allc[: (300 if tier == "quick" else 5000)]]
+    multimod = []
+    for i, (dupf, nimp) in enumerate([(True, 2), (True, 3), (False, 4), (True, 4)]):
+        mods = ["//// module lib%d.pn\npub fn %s(x: i32) -> i32\n{\n\treturn: x + %d\n}\npub const C%d: i32 = %d;\n" % (j, "helper" if dupf else "h%d" % j, j, j, j) for j in range(nimp)]
+        main = "//// module main.pn\n" + "".join('import "lib%d.pn";\n' % j for j in range(nimp)) + "fn main() -> i32\n{\n\treturn: %s\n}\n" % " + ".join("C%d" % j for j in range(nimp))
+        multimod.append(("mi%d" % i, main + "".join(mods)))
+    det += multimod
     runs = [C.run_harness("ir", det, ck.work + "/det%d" % k, jobs=4 + 3 * k) for k in range(3)]
     nondet = 0
     for cid, src in det:
@@ -120,6 +150,7 @@ def run(tier):
         cyc = "".join("const K%d: usize = K%d + 1;\n" % (j, (j + 1) % k) for j in range(k))
         det2.append(("cc%d" % i, cyc + "fn main()\n{\n}\n"))
         det2.append(("cs%d" % i, "const H: usize = |:P|;\n" + "".join("const T%d: usize = %s;\n" % (j, "H" if j == 0 else "T%d" % (j - 1)) for j in range(k)) + "struct P\n{\n\tpayload: [T%d]u8,\n}\nfn main()\n{\n}\n" % (k - 1)))
+    det2 += multimod
     druns = [C.run_harness("diag", det2, ck.work + "/ddet%d" % k, jobs=3 + 4 * k) for k in range(4)]
     for cid, src in det2:
         outs = [tuple(r.get(cid, ["missing"])) for r in druns]
